@@ -7,6 +7,7 @@ use hcommon::{Report, read_ndjson};
 use serde_json::{Value, json};
 
 mod crash;
+mod idxcrash;
 mod race;
 mod sched;
 mod space;
@@ -28,6 +29,7 @@ fn main() {
         "timing" => rt.block_on(timing_cmd(&mut rep, &args[2])),
         "crash" => rt.block_on(crash::crash_cmd(&mut rep, &args[2])),
         "race" => rt.block_on(race::race_cmd(&mut rep, &args[2])),
+        "idxcrash" => rt.block_on(idxcrash::idxcrash_cmd(&mut rep, &args[2])),
         "lateack" => rt.block_on(sched::lateack_cmd(&mut rep, &args[2])),
         "midtx" => rt.block_on(sched::midtx_cmd(&mut rep, &args[2])),
         "sched" => rt.block_on(async {
